@@ -252,13 +252,18 @@ def scen_nested_failure(rng):
         _fn('f2', body, 'nonjson' if fail == 'nonjson' else 'acc'),
         _fn('f3', [['w', None]] if rng.random() < 0.85 else []),
     ]
+    if rng.random() < 0.5:
+        # the observations that follow the call are made inside a sibling subbuild: its record is replayed against
+        # the reservations of the reused subtree
+        funcs.append(_fn('f4', _probe(rng, [d1, d2, y, x, '', '%s/%s' % (d1, d2)], 3)))
+        funcs[0]['stmts'] = funcs[0]['stmts'][:2] + [_sb(4, catch=True)]
     funcs.append(_fn('rootfail', funcs[0]['stmts'] + [['raise', 99]]))
     steps = [_build(), _build()]
     tail = rng.choice(['clean', 'mut', 'fail', 'empty'])
     if tail == 'mut':
         steps += [['mut', rng.choice(['delete', 'touch', 'write', 'rmtree']), rng.choice([y, x, d1]), 'm1', 6000 + rng.randint(1, 99)], _build()]
     elif tail == 'fail':
-        steps += [_build(root=4), _build()]
+        steps += [_build(root=len(funcs) - 1), _build()]
     steps += [['clean', 'n']] if rng.random() < 0.6 else []
     return {'tree': [], 'funcs': funcs, 'steps': steps}
 
@@ -417,13 +422,14 @@ ARG_PAIRS = [  # (first build, second build, same JSON value?)
 ]
 
 
-def scen_identity(rng):
+def scen_identity(rng, index=None):
     """the same call in consecutive builds with arguments that are / are not the same JSON value, as
     positional argument or as keyword argument, for build_file and subbuild"""
-    a, b, _same = rng.choice(ARG_PAIRS)
+    k = rng.randrange(10 ** 6) if index is None else index
+    a, b, _same = ARG_PAIRS[k % len(ARG_PAIRS)]
     p = rng.choice(PATHS2)
-    as_kw = rng.random() < 0.5
-    use_bf = rng.random() < 0.5
+    as_kw = (k // len(ARG_PAIRS)) % 2 == 0
+    use_bf = (k // (2 * len(ARG_PAIRS))) % 2 == 0
 
     def call(v):
         if as_kw:
@@ -611,7 +617,27 @@ def scen_todir(rng):
     return {'tree': [], 'funcs': funcs, 'steps': steps}
 
 
-SCENARIOS = [scen_nested_failure, scen_swap, scen_stale_dir, scen_dups, scen_versions, scen_reads, scen_identity, scen_foreign_swap, scen_sibling_failure, scen_todir]
+def scen_selfread(rng):
+    """a build_file function that looks at its own target while it is writing it (the target is invisible to it:
+    FileNotFoundError), writes it in two steps, and is later read back by a sibling - with HASH nothing may be
+    recorded from the half-written file"""
+    d = rng.choice(NAMES)
+    out = '%s/%s' % (d, rng.choice(NAMES))
+    c_out, c_self, c_back = rng.choice('HHM'), rng.choice('HHM'), rng.choice('HHM')
+    body = [['w', 'half', None], _q('read', out, c_self)] + _probe(rng, [out, d], 1) + [['w', 'complete-content', None]]
+    funcs = [
+        _fn('f0', [_bf(out, 1, cmp_=c_out, catch=True), _sb(2, catch=True)]),
+        _fn('f1', body),
+        _fn('f2', [_q('read', out, c_back)]),
+    ]
+    funcs.append(_fn('rootfail', funcs[0]['stmts'] + [['raise', 99]]))
+    steps = [_build(), _build(), _build()]
+    if rng.random() < 0.5:
+        steps += [['mut', 'touch', out, None, EPOCH_NS + 77], _build(), _build()]
+    return {'tree': [], 'funcs': funcs, 'steps': steps}
+
+
+SCENARIOS = [scen_nested_failure, scen_swap, scen_stale_dir, scen_dups, scen_versions, scen_reads, scen_identity, scen_foreign_swap, scen_sibling_failure, scen_todir, scen_selfread]
 
 
 def gen_scenario_cases(seed, per_family, dirsize=4096, families=SCENARIOS):
@@ -619,7 +645,7 @@ def gen_scenario_cases(seed, per_family, dirsize=4096, families=SCENARIOS):
     for fi, fam in enumerate(families):
         for i in range(per_family):
             rng = random.Random(seed * 1009 + fi * 100003 + i)
-            c = fam(rng)
+            c = fam(rng, i) if fam is scen_identity else fam(rng)
             c.update({'kind': 'hist', 'seed': 'scen:%s:%d:%d' % (fam.__name__, seed, i), 'dirsize': dirsize})
             c.setdefault('cache', 'cache.gz')
             out.append(c)
